@@ -22,6 +22,7 @@ import (
 	"go/token"
 	"go/types"
 	"log"
+	"strings"
 
 	"github.com/goplus/gogen/internal"
 	"github.com/goplus/gogen/internal/go/printer"
@@ -46,6 +47,19 @@ func (p *CodeBuilder) emitMapStringAnyAssert(argVal ast.Expr) ast.Expr {
 	}
 	p.emitStmt(stmt)
 	return ret
+}
+
+// isAutoAssertStmt reports whether stmt is the assertion `_autoGo_N, _ := x.(map[string]any)`
+// that member access on an `any` value emits (see emitMapStringAnyAssert).
+func isAutoAssertStmt(stmt ast.Stmt) bool {
+	if as, ok := stmt.(*ast.AssignStmt); ok && as.Tok == token.DEFINE && len(as.Lhs) == 2 && len(as.Rhs) == 1 {
+		if _, ok := as.Rhs[0].(*ast.TypeAssertExpr); ok {
+			if id, ok := as.Lhs[0].(*ast.Ident); ok {
+				return strings.HasPrefix(id.Name, goxAutoPrefix)
+			}
+		}
+	}
+	return false
 }
 
 // TypeAssert func
@@ -1087,12 +1101,12 @@ func emitReturnStmt(cb *CodeBuilder, pos token.Pos, rets ...ast.Expr) {
 }
 
 func emitIfStmt(cb *CodeBuilder, p *ifStmt, el ast.Stmt) {
-	cb.emitStmt(&ast.IfStmt{Init: checkHeaderStmt(p.init), Cond: checkHeaderExpr(p.cond), Body: p.body, Else: el})
+	emitWithPreStmts(cb, p.pre, &ast.IfStmt{Init: checkHeaderStmt(p.init), Cond: checkHeaderExpr(p.cond), Body: p.body, Else: el})
 }
 
 func emitSWitchStmt(cb *CodeBuilder, p *switchStmt, stmts []ast.Stmt) {
 	body := &ast.BlockStmt{List: stmts}
-	cb.emitStmt(&ast.SwitchStmt{Init: checkHeaderStmt(p.init), Tag: checkHeaderExpr(checkParenExpr(p.tag.Val)), Body: body})
+	emitWithPreStmts(cb, p.pre, &ast.SwitchStmt{Init: checkHeaderStmt(p.init), Tag: checkHeaderExpr(checkParenExpr(p.tag.Val)), Body: body})
 }
 
 func emitFullthrough(cb *CodeBuilder) {
